@@ -75,8 +75,9 @@ func FaultPoint(c Case, k int, mode string, want string) *ev.Violation {
 	}
 	fw := &faultWriter{k: k, mode: mode}
 	var err error
+	rw := auto.Wrap(t, c.Style)
 	if v := ev.Guard(func() *ev.Violation {
-		err = auto.RenderTo(t, fw, c.Style)
+		err = rw.RenderTo(fw)
 		return nil
 	}); v != nil {
 		return ev.V("%s, write %d fails (%s): %s", c.Style, k, mode, v.Msg)
@@ -90,6 +91,26 @@ func FaultPoint(c Case, k int, mode string, want string) *ev.Violation {
 	got := fw.accepted.String()
 	if len(got) > len(want) || want[:len(got)] != got {
 		return ev.V("%s: write %d failed (%s): the bytes the writer accepted are not a prefix of the fault-free output (rendering went on after the failure)\n--- accepted\n%q\n--- fault-free\n%q", c.Style, k, mode, got, want)
+	}
+	// fault sequences on one wrapper: the same wrapper is asked again, first with another failing writer
+	// (the prefix property holds for that render too), then with a healthy one (the full output)
+	fw2 := &faultWriter{k: (k + 1) / 2, mode: "once"}
+	var err2 error
+	if v := ev.Guard(func() *ev.Violation { err2 = rw.RenderTo(fw2); return nil }); v != nil {
+		return ev.V("%s: second render on the wrapper after a failed one: %s", c.Style, v.Msg)
+	}
+	if fw2.calls > fw2.k {
+		got2 := fw2.accepted.String()
+		if err2 == nil {
+			return ev.V("%s: after a failed render (write %d, %s) a second render on the same wrapper had write %d fail but returned nil", c.Style, k, mode, fw2.k)
+		}
+		if len(got2) > len(want) || want[:len(got2)] != got2 {
+			return ev.V("%s: after a failed render (write %d, %s) the second render on the same wrapper (write %d fails once) delivered bytes that are not a prefix of the fault-free output\n--- accepted\n%q\n--- fault-free\n%q", c.Style, k, mode, fw2.k, got2, want)
+		}
+	}
+	var healthy bytes.Buffer
+	if err3 := rw.RenderTo(&healthy); err3 != nil || healthy.String() != want {
+		return ev.V("%s: after failed renders (write %d, %s) the same wrapper no longer renders the fault-free output: err=%v\n--- got\n%q\n--- want\n%q", c.Style, k, mode, err3, healthy.String(), want)
 	}
 	return nil
 }
